@@ -38,7 +38,7 @@ MANIFEST = {
 }
 MODULES = ["PrimaiteModel.Props.C08", "PrimaiteModel.Props.C08Forward", "PrimaiteModel.Lemmas.ForwardInv",
            "PrimaiteModel.Props.C08Addressee", "PrimaiteModel.Props.C08Liveness", "PrimaiteModel.Props.C08FuelMono",
-           "PrimaiteModel.Props.C08Termination"]
+           "PrimaiteModel.Props.C08Termination", "PrimaiteModel.Props.C08RouteOps"]
 EXE = "drv_c08"
 
 
@@ -147,7 +147,7 @@ def _run_net(ctx: Ctx):
         ctx.cov["traces_validated_against_impl"] += 1
         notes = case.get("notes", {})
         ctx.count("net-hypotheses-of-arp-sound-theorem:" + out[pos[0] - 1])
-        for key in ("via_host", "gw_is_host", "gw_off_subnet"):
+        for key in ("via_host", "gw_is_host", "gw_off_subnet", "dmz_cross"):
             if notes.get(key):
                 ctx.count("net-misconfig:" + key)
         if notes.get("dual_homed") is not None:
